@@ -34,6 +34,13 @@ for _prop, _names in (("C08", ("op_div", "op_mod", "fn_str", "op_shl")), ("C12",
     for _o in _other(_prop).OBLIGATIONS:
         if _o["name"] in _names:
             OBLIGATIONS.append(dict(_o, src="../%s/%s" % (_prop, _o["src"])))
+OBLIGATIONS.append(dict(name="page_symlist", src="page.c", include=["asmpars.c"], units=["asmallg.c", "asmdef.c", "dynstr.c"], stubs=["diag.c", "fmt_off.c"], defs=["STRINGSIZE=16"],
+    cuts={"asmpars.c": ["EvalStrIntExpression", "EvalStrIntExpressionWithFlags", "EvalStrIntExpressionWithResult", "PrintSymbolList_AddOut"]},
+    subst={"asmallg.c": [("static void CodePAGE(Word Index) {", "void CodePAGE(Word Index) {")]}, nobody_mode="nondet", unwind=20, unwind_fn={"harness": 10}, timeout=600,
+    functions=["asmallg.c:CodePAGE", "asmpars.c:PrintSymbolList", "asmpars.c:PrintSymbolList_PNode"],
+    bounds="PAGE with 1..2 operands of any 64-bit value, then the symbol-table listing of one symbol whose value text has 0..6 characters",
+    assumes=["contract evaluator (documented ranges of the requested integer type)", "listing sink, message catalogue, value formatting (StrSym) and line collection (PrintSymbolList_AddOut) replaced by stubs",
+             "formatted output (as_sdprintf) empty: the name part of the column is the empty string"]))
 META = dict(outside=["whole utilities on arbitrary bytes: harnesses exist (thorough tier) but p2bin/plist do not finish; known by reading: a file truncated after an entry record makes p2bin/p2hex loop forever, granularity byte 0 divides by zero, segment byte >= 11 indexes out of bounds",
                      "asl itself on arbitrary source bytes (line splitter/macro processor/expression parser do not finish under symex)", "alink, dasl, p2hex (pending)",
                      "files longer than the stated bound", "all code generators"],
